@@ -36,6 +36,9 @@ Lemma session_style_with_option st :
   session_style true st = mkStyle (st_suffixed st) (st_separated st) (st_thousands st) true.
 Proof. destruct st as [a b c d]. destruct d; reflexivity. Qed.
 
+Lemma digit_not_minus_early c : is_digit c = true -> c <> 45.
+Proof. unfold is_digit. intros H. apply andb_true_iff in H as [H _]. apply Z.leb_le in H. lia. Qed.
+
 (* ---- the reader never forgets a decimal-comma style: what it starts with, it ends with and teaches ---- *)
 Lemma scan_step_keeps_dc s ch s' :
   sc_decimal_comma s = true -> scan_step s ch = Ok s' -> sc_decimal_comma s' = true.
@@ -83,7 +86,55 @@ Qed.
 (* under --decimal-comma every amount the reader accepts teaches its commodity the decimal-comma style *)
 Lemma option_teaches_decimal_comma flag s pa :
   parse_amount_text_session true flag s = Ok pa -> st_decimal_comma (pa_style pa) = true.
-Proof. unfold parse_amount_text_session. rewrite reader_dc_spec. cbn [orb]. apply parse_keeps_dc. Qed.
+Proof.
+  unfold parse_amount_text_session. rewrite reader_dc_spec. cbn [orb].
+  destruct (split_amount s) as [ap|e]; cbn [bind]; [|discriminate].
+  destruct (parse_amount_text true s) as [pa0|e] eqn:E; cbn [bind]; [|discriminate].
+  pose proof (parse_keeps_dc s pa0 E) as H0.
+  destruct (set_str_accepts (ap_quant ap)); intros H; inversion H; subst; [exact H0 | cbn [pa_style]; exact H0].
+Qed.
+
+(* the mark-stripping loop: digits pass unchanged, and a single mark between digits is removed - the texts the printer
+   emits never put two marks side by side, so there the loop yields the digits alone (what digits_value reads) *)
+Lemma is_mark_digit c : is_digit c = true -> is_mark c = false.
+Proof. intros H. unfold is_mark. destruct (is_digit_not_mark c H) as [-> ->]. reflexivity. Qed.
+
+Lemma strip_marks_digits s : all_digits s -> strip_marks s = s.
+Proof.
+  induction 1 as [|c s Hc _ IH]; cbn [strip_marks]; [reflexivity|].
+  rewrite (is_mark_digit c Hc), IH. reflexivity.
+Qed.
+
+Lemma strip_marks_between ip m f0 fp :
+  all_digits ip -> is_mark m = true -> is_digit f0 = true ->
+  strip_marks (ip ++ m :: f0 :: fp) = ip ++ f0 :: strip_marks fp.
+Proof.
+  intros Hi Hm Hf. induction Hi as [|c ip Hc _ IH]; cbn [app strip_marks].
+  - rewrite Hm. reflexivity.
+  - rewrite (is_mark_digit c Hc), IH. reflexivity.
+Qed.
+
+Lemma drop_minus_other c s : c <> 45 -> drop_minus (c :: s) = c :: s.
+Proof.
+  intros H. unfold drop_minus. destruct c as [|q|q]; try reflexivity.
+  repeat (destruct q as [q|q|]; try reflexivity). exfalso. apply H. reflexivity.
+Qed.
+
+(* a text "digits mark digits" that does not begin with '-' is accepted by mpq_set_str after the stripping loop *)
+Lemma set_str_accepts_plain_decimal c0 ip fp m :
+  all_digits (c0 :: ip) -> all_digits fp -> fp <> [] -> is_mark m = true ->
+  set_str_accepts ((c0 :: ip) ++ m :: fp) = true.
+Proof.
+  intros Hi Hf Hne Hm. unfold set_str_accepts.
+  destruct fp as [|f0 fr]; [contradiction|].
+  cbn [app]. rewrite drop_minus_other by (apply digit_not_minus_early; exact (Forall_inv Hi)).
+  change (c0 :: ip ++ m :: f0 :: fr) with ((c0 :: ip) ++ m :: f0 :: fr).
+  inversion Hf as [|? ? Hf0 Hfr]; subst.
+  rewrite (strip_marks_between (c0 :: ip) m f0 fr Hi Hm Hf0), (strip_marks_digits fr Hfr).
+  rewrite forallb_app. apply andb_true_iff. split.
+  - apply forallb_forall. intros x Hx. unfold all_digits in Hi. rewrite Forall_forall in Hi. apply Hi. exact Hx.
+  - cbn [forallb]. rewrite Hf0. apply forallb_forall. intros x Hx. unfold all_digits in Hfr. rewrite Forall_forall in Hfr. apply Hfr. exact Hx.
+Qed.
 
 (* ---- print -> re-read of a decimal-comma text when the reader knows the style ---- *)
 Lemma scan_step_comma_dc k :
@@ -252,6 +303,14 @@ Proof.
       * exists false. rewrite (quantity_text_no_marks sfx sep false true false N p p).
         apply plain_text_roundtrip; assumption.
 Qed.
+
+(* the reader's quirk on malformed input (not a text the printer emits): of two adjacent marks one survives the
+   stripping loop, mpq_set_str refuses the text and the amount is taken as zero *)
+Example adjacent_marks_read_as_zero :
+  strip_marks [49;46;44;50] = [49;44;50] /\ set_str_accepts [49;46;44;50] = false /\
+  (exists pa, parse_amount_text_session false false [49;46;44;50;32;69;85;82] = Ok pa /\ pa_num pa = 0 /\ pa_prec pa = 1) /\
+  (exists pa, parse_amount_text_session false false [49;44;50;32;69;85;82] = Ok pa /\ pa_num pa = 12 /\ pa_prec pa = 1).
+Proof. vm_compute. repeat split; eexists; repeat split; reflexivity. Qed.
 
 Example f21_text_under_the_option :
   quantity_text_sites true (mkStyle false false false false) true false 310200000 6 6 = [51;49;48;44;50;48;48;48;48;48] /\
